@@ -31,39 +31,43 @@ from . import core
 
 SPEC = core.SPEC / "rv"
 
+NOSUBS = '"join", "unjoin", "select", "slice", "concat"'
+PLAIN, SHARED, BOTH = '"plain"', '"shared"', '"plain", "shared"'
 GRAPH = {
-    # N, Fills, NPats, Confl, Ops
-    "quick": [(4, '"zero", "tmpl"', 2, "TRUE", '"join", "unjoin", "select", "slice", "concat"')],
+    # N, Fills, NPats, Confl, Ops, initial configurations
+    "quick": [(4, '"zero", "tmpl"', 1, "TRUE", NOSUBS, PLAIN)],
     "thorough": [
-        (4, '"zero", "sym", "num", "tmpl"', 3, "TRUE", '"join", "unjoin", "select", "slice", "concat"'),
-        (3, '"zero", "sym", "num", "tmpl"', 3, "TRUE", '"join", "unjoin", "select", "slice", "concat", "subs"'),
-        (5, '"zero"', 3, "TRUE", '"join", "unjoin", "select", "slice", "concat"'),
+        (4, '"zero", "sym", "num", "tmpl"', 3, "TRUE", NOSUBS, BOTH),
+        (3, '"zero", "sym", "num", "tmpl"', 3, "TRUE", NOSUBS[:-1] + ', "subs"', BOTH),
+        (5, '"zero"', 3, "TRUE", NOSUBS, PLAIN),
     ],
 }
 CORE = '"join", "unjoin", "select"'
 HIST = {
-    # N, MaxOps, Fills, NPats, Ops
+    # N, MaxOps, Fills, NPats, Ops, initial configurations, replay budget (None = all)
     "quick": [
-        (4, 2, '"zero", "sym", "tmpl"', 1, None),
-        (5, 1, '"zero", "sym", "num", "tmpl"', 2, None),
+        (4, 2, '"sym", "tmpl"', 1, None, PLAIN, 8000),  # (fill 0 at depth 2: thorough tier, graph mode, N=5 depth 1)
+        (5, 1, '"zero", "sym", "num", "tmpl"', 2, None, BOTH, None),
+        (4, 2, '"sym"', 1, None, SHARED, 3000),
     ],
     "thorough": [
-        (4, 2, '"zero", "sym", "num", "tmpl"', 3, None),
-        (5, 1, '"zero", "sym", "num", "tmpl"', 5, None),
-        (5, 2, '"sym"', 1, CORE),
-        (5, 2, '"tmpl"', 1, '"join", "unjoin"'),
+        (4, 2, '"zero", "sym", "num", "tmpl"', 3, None, PLAIN, None),
+        (4, 2, '"zero", "sym", "tmpl"', 1, None, SHARED, None),
+        (5, 1, '"zero", "sym", "num", "tmpl"', 5, None, BOTH, None),
+        (5, 2, '"sym"', 1, CORE, PLAIN, None),
+        (5, 2, '"tmpl"', 1, '"join", "unjoin"', PLAIN, None),
     ],
 }
-SIM = {"thorough": (5, 6, '"sym", "tmpl"', 5, None)}  # TLC's simulator expands every successor: keep the fan-out moderate
+SIM = {"thorough": (5, 6, '"sym", "tmpl"', 5, None, BOTH, None)}  # TLC's simulator expands every successor: keep the fan-out moderate
 SIM_TRACES = 600
 ALLOPS = '"join", "unjoin", "select", "slice", "concat", "subs"'
 
 
-def _cfg(path, N, maxops, track, fills, npats, confl, ops, invariants):
+def _cfg(path, N, maxops, track, fills, npats, confl, ops, invariants, kinds='"plain"'):
     path.write_text(
         "CONSTANTS\n"
         f"  N = {N}\n  MaxOps = {maxops}\n  Track = {track}\n  Fills = {{{fills}}}\n  NPats = {npats}\n"
-        f"  Confl = {confl}\n  Ops = {{{ops}}}\nINIT Init\nNEXT Next\n"
+        f"  Confl = {confl}\n  Ops = {{{ops}}}\n  InitKinds = {{{kinds}}}\nINIT Init\nNEXT Next\n"
         + "".join(f"INVARIANT {i}\n" for i in invariants)
         + "CHECK_DEADLOCK FALSE\n"
     )
@@ -71,14 +75,14 @@ def _cfg(path, N, maxops, track, fills, npats, confl, ops, invariants):
 
 
 def _tlc_graph(d, spec, idx, timeout, coverage=False, workers=16):
-    N, fills, npats, confl, ops = spec
-    cfg = _cfg(d / f"graph{idx}.cfg", N, 0, "FALSE", fills, npats, confl, ops, ["TypeOK", "BlockDiagonal", "Confluent"])
+    N, fills, npats, confl, ops, kinds = spec
+    cfg = _cfg(d / f"graph{idx}.cfg", N, 0, "FALSE", fills, npats, confl, ops, ["TypeOK", "BlockDiagonal", "Confluent"], kinds)
     return core.run_tlc(SPEC / "RandVars.tla", cfg, workers=workers, timeout=timeout, coverage=coverage)
 
 
 def _tlc_hist(d, spec, timeout, simulate=None, depth=None, seed=None, workers=16, idx=0):
-    N, maxops, fills, npats, ops = spec
-    cfg = _cfg(d / ("sim.cfg" if simulate else f"hist{idx}.cfg"), N, maxops, "TRUE", fills, npats, "FALSE", ops or ALLOPS, ["TypeOK", "BlockDiagonal", "EmitCase"])
+    N, maxops, fills, npats, ops, kinds, _budget = spec
+    cfg = _cfg(d / ("sim.cfg" if simulate else f"hist{idx}.cfg"), N, maxops, "TRUE", fills, npats, "FALSE", ops or ALLOPS, ["TypeOK", "BlockDiagonal", "EmitCase"], kinds)
     return core.run_tlc(SPEC / "RandVars.tla", cfg, workers=workers, timeout=timeout, coverage=False, simulate=simulate, depth=depth, seed=seed)
 
 
@@ -600,36 +604,114 @@ def sd_case(case):
     return ("ok", record, None)
 
 
-def ucp_case(case):
-    """from_ucp(scale(model), 0.1) == inits(model) (auxiliary float assertion, 1e-8 relative).
-    The UCP of an off-diagonal element carries the sign of its Cholesky factor entry."""
+THETA_CLASSES = {
+    # class of PSD.tla -> (init, lower, upper, fix)
+    "lb0": (1.5, 0.0, None, False),
+    "interval": (1.2, 0.5, 2.0, False),
+    "neglb": (0.75, -0.99, 5.0, False),
+    "unbounded": (-0.3, None, None, False),
+    "fixed": (2.0, None, None, True),
+}
+
+
+def ucp_case(arg):
+    """from_ucp(scale(model), 0.1) == inits(model) (float statement, 1e-8 relative), for thetas of every bound class
+    TLC enumerates and a positive definite omega block.  First with the UCP of an off-diagonal element carrying the
+    sign of its Cholesky factor entry (every parameter judged), then literally with 0.1 everywhere."""
     import numpy as np
 
-    from pharmpy.model import Model
+    from pharmpy.model import Model, Parameter, Parameters
     from pharmpy.modeling import calculate_parameters_from_ucp, calculate_ucp_scale
 
+    case, th = arg
     n, t = case["n"], case["t"]
     A = _mat(n, t)
-    record = {"part": "ucp", "n": n, "t": t, "outcome": None, "case": case}
+    record = {"part": "ucp", "n": n, "t": t, "thetas": th["classes"], "ucp": "signed", "negchol": False, "outcome": None, "case": case, "th": th}
     try:
         rvs = _psd_ctx(n, "ucp")
-        model = Model.create(name="m", parameters=_params(n, A, "ucp"), random_variables=rvs)
+        base = [p for p in _params(n, A, "ucp") if p.name != "TH1"]
+        thetas = []
+        for k, cl in enumerate(th["classes"], start=1):
+            init, lo, up, fix = THETA_CLASSES[cl]
+            kw = {}
+            if lo is not None:
+                kw["lower"] = lo
+            if up is not None:
+                kw["upper"] = up
+            thetas.append(Parameter.create(f"TH{k}", init, fix=fix, **kw))
+        model = Model.create(name="m", parameters=Parameters.create(thetas + base), random_variables=rvs)
         scale = calculate_ucp_scale(model)
         L = np.linalg.cholesky(np.array(A, dtype=float))
-        ucps = {p: 0.1 for p in model.parameters.names}
-        for i in range(n):
-            for j in range(i):
-                if L[i][j] < 0:
-                    ucps[_pname(i, j)] = -0.1
-        out = calculate_parameters_from_ucp(model, scale, ucps)
         inits = model.parameters.inits
-        for k, v in inits.items():
-            if abs(float(out[k]) - v) > 1e-8 * max(1.0, abs(v)):
-                record["outcome"] = "ucp_roundtrip"
-                return ("violation", record, f"from_ucp(scale, 0.1) gives {k}={float(out[k])}, initial estimate {v} (omega {A})")
+        free = [p.name for p in model.parameters if not p.fix]
+        neg = [_pname(i, j) for i in range(n) for j in range(i) if L[i][j] < 0]
+        for mode in ("signed", "literal"):
+            ucps = {p: 0.1 for p in free}
+            if mode == "signed":
+                for p in neg:
+                    ucps[p] = -0.1
+            elif not neg:
+                break
+            out = calculate_parameters_from_ucp(model, scale, ucps)
+            for k in free:
+                v = inits[k]
+                if abs(float(out[k]) - v) > 1e-8 * max(1.0, abs(v)):
+                    record.update(outcome="ucp_roundtrip", ucp=mode, negchol=k in neg)
+                    what = f"from_ucp(scale(model), 0.1) gives {k}={float(out[k])}, initial estimate {v} (thetas {th['classes']}, omega {A}"
+                    return ("violation", record, what + (", ucp of negative Cholesky entries -0.1)" if mode == "signed" else ", all ucps 0.1)"))
     except Exception as e:
         record["outcome"] = type(e).__name__
         return ("violation", record, f"ucp round trip raised {type(e).__name__}: {str(e)[:160]}")
+    return ("ok", record, None)
+
+
+_SH_CTX: dict = {}
+
+
+def sh_case(case):
+    """parameters_sdcorr on a collection in which ONE variance parameter is used by several distributions (IOV):
+    every parameter is converted once (TLC's exact values), and sd**2 / corr*sd*sd gives the variances back"""
+    from pharmpy.basic import Expr
+    from pharmpy.model import JointNormalDistribution, NormalDistribution, RandomVariables
+
+    S = Expr.symbol
+    k, share = case["k"], case["share"]
+    record = {"part": "sdcorr_shared", "k": k, "share": share, "t": case["t"], "v": case["v"], "outcome": None, "case": case}
+    try:
+        key = (k, share)
+        if key not in _SH_CTX:
+            blk = JointNormalDistribution.create(["ETA1", "ETA2"], "IIV", [0, 0], [[S("OM1"), S("OM21")], [S("OM21"), S("OM2")]])
+            shared = S("OMS") if share == "own" else S("OM1")
+            occ = [NormalDistribution.create(f"IOV{i}", "IOV", 0, shared) for i in range(1, k + 1)]
+            order = [blk] + occ if k % 2 else occ + [blk]
+            _SH_CTX[key] = RandomVariables.create(order)
+        rvs = _SH_CTX[key]
+        t = case["t"]
+        values = {"OM1": float(t[0]), "OM21": float(t[1]), "OM2": float(t[2]), "TH1": 1.5}
+        exp = {"OM1": case["sd"][0], "OM2": case["sd"][1], "OM21": case["corr"][1][0][0] / case["corr"][1][0][1], "TH1": 1.5}
+        if share == "own":
+            values["OMS"] = float(case["v"])
+            exp["OMS"] = case["sv"]
+        orig = dict(values)
+        out = rvs.parameters_sdcorr(values)
+        if values != orig:
+            record["outcome"] = "argument_changed"
+            return ("violation", record, "parameters_sdcorr changed its argument")
+        for name, e in exp.items():
+            if abs(float(out[name]) - e) > 1e-12:
+                record["outcome"] = "parameters_sdcorr"
+                return ("violation", record, f"parameters_sdcorr gives {name}={float(out[name])!r}, exact value {e} (variance {orig[name]}, the parameter is the variance of "
+                        f"{'the block and ' if share == 'block' and name == 'OM1' else ''}{k if name in ('OMS', 'OM1') else 0} univariate distribution(s))")
+        back = {"OM1": out["OM1"] ** 2, "OM2": out["OM2"] ** 2, "OM21": out["OM21"] * out["OM1"] * out["OM2"]}
+        if share == "own":
+            back["OMS"] = out["OMS"] ** 2
+        for name, b in back.items():
+            if abs(b - orig[name]) > 1e-12 * max(1.0, abs(orig[name])):
+                record["outcome"] = "sdcorr_not_inverse"
+                return ("violation", record, f"sd/corr -> var/cov gives {name}={b}, started from {orig[name]}")
+    except Exception as e:
+        record["outcome"] = type(e).__name__
+        return ("violation", record, f"parameters_sdcorr raised {type(e).__name__}: {str(e)[:160]}")
     return ("ok", record, None)
 
 
@@ -693,7 +775,12 @@ def main(tier: str, seed: int) -> int:
             classes = {c["cls"] for c in mats}
             if classes != {"pd", "psd0", "indef"} or not sds:
                 raise core.MachineryError(f"PSD.tla emitted classes {classes}, {len(sds)} sd cases (vacuous)")
-            _run_psd(v, tier, rng, mats, sds)
+            shs = [c for tag, c in res.prints if tag == "SH"]
+            ths = [c for tag, c in res.prints if tag == "TH"]
+            if not shs or {tuple(c["classes"]) for c in ths} < {("interval",), ("neglb",), ("unbounded",)} or {c["share"] for c in shs} != {"own", "block"}:
+                raise core.MachineryError(f"PSD.tla: {len(shs)} shared-variance cases, {len(ths)} theta class sequences (vacuous)")
+            rng.shuffle(shs)
+            _run_psd(v, tier, rng, mats, sds, shs, ths)
 
             # ---- histories
             kinds = set()
@@ -703,7 +790,7 @@ def main(tier: str, seed: int) -> int:
                 core.tlc_stats_into(v, res)
                 cases = [c for tag, c in res.prints if tag == "CASE"]
                 res.out, res.prints = "", []
-                kinds |= _run_hist(v, tier, rng, cases, f"N={h[0]} ops<={h[1]} fills={h[2]} patterns={h[3]}" + (f" ops={h[4]}" if h[4] else ""))
+                kinds |= _run_hist(v, tier, rng, cases, f"N={h[0]} ops<={h[1]} fills={h[2]} patterns={h[3]} inits={h[5]}" + (f" ops={h[4]}" if h[4] else ""), h[6])
             if f_sim is not None:
                 rs = f_sim.result()
                 core.require_ok(rs, "RandVars.tla simulation")
@@ -730,18 +817,22 @@ def main(tier: str, seed: int) -> int:
                 if r.distinct < 100 or r.generated <= r.distinct:
                     raise core.MachineryError(f"RandVars.tla graph N={g[0]}: only {r.distinct} states")
                 core.tlc_stats_into(v, r)
-                graphs.append({"N": g[0], "fills": g[1], "level_patterns": g[2], "ops": g[4], "states": r.distinct, "transitions": r.generated, "depth": r.depth, "wall_s": round(r.wall, 1)})
+                graphs.append({"N": g[0], "fills": g[1], "level_patterns": g[2], "ops": g[4], "inits": g[5], "states": r.distinct, "transitions": r.generated, "depth": r.depth, "wall_s": round(r.wall, 1)})
             v.add_coverage(graph_runs=graphs)
     finally:
         shutil.rmtree(d, ignore_errors=True)
     return v.finish(min_traces=1000)
 
 
-def _run_hist(v, tier, rng, cases, label):
+def _run_hist(v, tier, rng, cases, label, budget=None):
     if not cases:
         raise core.MachineryError(f"RandVars.tla emitted no cases ({label})")
     kinds = {h["op"]["op"] for c in cases for h in c["hist"]}
     rng.shuffle(cases)
+    emitted = len(cases)
+    if budget is not None and len(cases) > budget:
+        cases = cases[:budget]  # quick tier: a VERIF_SEED-chosen sample of the enumerated histories is replayed
+        v.add_coverage(exhaustive=False)
     work = [(c, rng.randrange(1 << 30)) for c in cases]
     # build every distribution once in the parent (symbolic .create is slow), children inherit the cache
     for c, _ in work:
@@ -772,20 +863,20 @@ def _run_hist(v, tier, rng, cases, label):
         distinct_nontrivial=nontrivial,
         traces_validated_against_impl=len(work),
         drift_cases=drifts,
-        history_runs=[{"bounds": label, "histories": len(work), "steps_compared": steps}],
+        history_runs=[{"bounds": label, "histories_enumerated_by_tlc": emitted, "histories_replayed": len(work), "steps_compared": steps}],
         samples=[{"init": [b["n"] for b in c["init"]], "ops": [_opkey(h["op"]) for h in c["hist"]], "orders_last": c["hist"][-1]["orders"]} for c, _ in work[:2]],
     )
     return kinds
 
 
-def _run_psd(v, tier, rng, mats, sds):
+def _run_psd(v, tier, rng, mats, sds, shs, ths):
     small = [m for m in mats if m["n"] < 3]
     big = [m for m in mats if m["n"] == 3]
     valid3 = [m for m in big if m["cls"] != "indef"]
     indef3 = [m for m in big if m["cls"] == "indef"]
     rng.shuffle(indef3)
     if tier == "quick":
-        indef3 = indef3[:9000]
+        indef3 = indef3[:6000]
     work = []
     for m in small + valid3:
         for variant in ("plain", "embedded", "ruv"):
@@ -814,6 +905,15 @@ def _run_psd(v, tier, rng, mats, sds):
     pd_ = [m for m in mats if m["cls"] == "pd"]
     rng.shuffle(pd_)
     ucw = pd_ if tier == "thorough" else pd_[:400]
+    rng.shuffle(ths)
+    ucw = [(m, ths[i % len(ths)]) for i, m in enumerate(ucw)]  # every theta bound class sequence of TLC at least once
+    if len(ucw) < len(ths):
+        ucw += [(pd_[i % len(pd_)], ths[i]) for i in range(len(ucw), len(ths))]
+    shw = shs if tier == "thorough" else shs[:600]
+    for status, record, what in core.pmap(sh_case, shw, procs=16, chunk=64):
+        aux += 1
+        if status == "violation":
+            v.violation(record, what)
     for status, record, what in core.pmap(ucp_case, ucw, procs=16, chunk=32):
         aux += 1
         if status == "violation":
@@ -823,6 +923,8 @@ def _run_psd(v, tier, rng, mats, sds):
         psd_models_checked=len(work),
         psd_valid_matrices=len([m for m in mats if m["cls"] != "indef"]),
         sdcorr_cases=len(sdw),
+        sdcorr_shared_variance_cases=len(shw),
+        theta_bound_class_sequences=len(ths),
         ucp_cases=len(ucw),
         aux_numeric_checked=aux,
         traces_validated_against_impl=len(work),
@@ -843,7 +945,9 @@ def replay(path: str) -> int:
     elif part == "sdcorr":
         out = sd_case(rec["case"])
     elif part == "ucp":
-        out = ucp_case(rec["case"])
+        out = ucp_case((rec["case"], rec["th"]))
+    elif part == "sdcorr_shared":
+        out = sh_case(rec["case"])
     else:
         print(f"unknown replay record {part}")
         return 2
